@@ -12,7 +12,7 @@ import time
 from . import env
 
 EVIDENCE_DIR = os.path.join(env.VERIF_DIR, "evidence")
-if os.path.realpath(env.repo_dir()) != "/repo":
+if os.path.realpath(env.repo_dir()) != "/repo" or os.environ.get("VERIF_EVIDENCE_SCRATCH"):
     # a run against a scratch tree (tools/with_patch.sh, sensitivity runs) must not overwrite
     # the evidence of /repo itself
     EVIDENCE_DIR = os.path.join(env.scratch_root(), "verif-evidence-of-scratch-trees")
